@@ -388,21 +388,23 @@ Section Steps.
 
   Lemma do_multi_remove_spec ks : forall s acc s' l,
     do_multi_remove P c s ks acc = (s', l) ->
-    exists D dcc, mstepx s s' D dcc /\ inval_of D
+    exists D dcc, mstepx s s' D dcc /\ dcc = (- dcost D)%Z /\ inval_of D
                   /\ Forall (fun d => In (d_key d) ks) D
                   /\ l = rev acc ++ map (fun d => (d_key d, e_val (d_ent d))) D
                   /\ (forall k, In k ks -> find s' k = None).
   Proof.
     induction ks as [|k t IH]; intros s acc s' l H; cbn [do_multi_remove] in H.
-    - inversion H; subst. exists [], 0%Z. split; [apply mstepx_refl; reflexivity|].
+    - inversion H; subst. exists [], 0%Z. split; [apply mstepx_refl; reflexivity|]. split; [reflexivity|].
       split; [constructor|]. split; [constructor|]. split; [rewrite app_nil_r; reflexivity | intros k []].
     - pose proof (do_remove_mstepx P c s k Hn) as Hr.
       destruct (do_remove P c s k) as [s1 o] eqn:Er.
       destruct (find s k) as [e|] eqn:Ef.
       + cbn [fst snd] in Hr. destruct Hr as [H1 ->].
-        destruct (IH s1 _ s' l H) as [D [dcc [H2 [I2 [K2 [L2 G2]]]]]].
+        destruct (IH s1 _ s' l H) as [D [dcc [H2 [X2 [I2 [K2 [L2 G2]]]]]]].
         exists ([mkDrop (shard_of c k) Invalidated k e] ++ D), (- Z.of_N (e_cost e) + dcc)%Z.
-        split; [eapply mstepx_trans; eassumption|]. split; [|split; [|split]].
+        split; [eapply mstepx_trans; eassumption|].
+        split; [rewrite X2; cbn [app]; change (dcost (?d :: D)) with (Z.of_N (e_cost (d_ent d)) + dcost D)%Z; cbn [d_ent]; lia|].
+        split; [|split; [|split]].
         * constructor; [cbn; auto | exact I2].
         * constructor; [left; reflexivity|]. eapply Forall_impl; [|exact K2]. intros d Hd. right. exact Hd.
         * rewrite L2. cbn [rev app map d_key d_ent]. rewrite <- app_assoc. reflexivity.
@@ -412,8 +414,8 @@ Section Steps.
           destruct H1 as [H1 _]. rewrite (find_mstep _ _ _ _ k H1).
           cbn [dkeys filter d_sh map d_key]. rewrite N.eqb_refl. cbn [map d_key mem existsb]. rewrite N.eqb_refl. reflexivity.
       + inversion Hr; subst.
-        destruct (IH s acc s' l H) as [D [dcc [H2 [I2 [K2 [L2 G2]]]]]].
-        exists D, dcc. split; [exact H2|]. split; [exact I2|]. split; [|split; [exact L2|]].
+        destruct (IH s acc s' l H) as [D [dcc [H2 [X2 [I2 [K2 [L2 G2]]]]]]].
+        exists D, dcc. split; [exact H2|]. split; [exact X2|]. split; [exact I2|]. split; [|split; [exact L2|]].
         * eapply Forall_impl; [|exact K2]. intros d Hd. right. exact Hd.
         * intros k' [<-|Hk]; [|apply G2; exact Hk].
           destruct H2 as [H2 _]. rewrite (find_mstep _ _ _ _ k H2), Ef.
